@@ -355,8 +355,10 @@ func (su *Summarize) optIdx(mode Mode) (Cost, Cost, any) {
 	}
 	srcReq := OrderReq(su.ons, frac)
 	fixcost, varcost := Optimize(su.source, mode, srcReq)
+	// no index for Select because the min or max is of the whole source,
+	// Select on the result (e.g. the wholeRow columns) is handled by filter
 	return fixcost, varcost,
-		&summarizeApproach{strat: sumIdx, index: su.ons, req: srcReq}
+		&summarizeApproach{strat: sumIdx, req: srcReq}
 }
 
 func (su *Summarize) optMap(mode Mode, req Require) (Cost, Cost, any) {
